@@ -138,6 +138,7 @@ func Start(t testing.TB, property, part, level, rule string) *Run {
 		maxSamples: 3,
 	}
 	fmt.Printf("@@VERIF {\"kind\":\"start\",\"property\":%q,\"part\":%q,\"seed\":%d,\"tier\":%q}\n", property, part, Seed(), Tier())
+	startHeartbeat()
 	return r
 }
 
@@ -439,4 +440,18 @@ func (r *Run) Watchdog(caseIdx int, limit time.Duration, describe func() any) fu
 		}
 	}()
 	return func() { close(done) }
+}
+
+var hbOnce sync.Once
+
+// startHeartbeat prints a line every 5 s for the driver's stall detection (one per process).
+func startHeartbeat() {
+	hbOnce.Do(func() {
+		go func() {
+			for i := 0; ; i++ {
+				time.Sleep(5 * time.Second)
+				fmt.Printf("@@HB %d\n", i)
+			}
+		}()
+	})
 }
